@@ -1194,6 +1194,107 @@ func twoWaiters(round int) Case {
 	return c
 }
 
+// twoWaitersOneReturn: the complement of twoWaiters.  The message-buffer pool (bound 6) is exhausted by holders that
+// do not let go by themselves (three packets staged for a session-less peer) plus ONE datagram that the sequential
+// receiver holds inside tun.Write; a second datagram parks the receive routine in GetMessageBuffer and an outbound TUN
+// packet parks the TUN reader there.  Releasing the write gives back exactly ONE buffer: one of the two waiters must
+// be admitted, and its work returns the buffer the other one needs - both datagrams reach the TUN and the outbound
+// packet reaches the bind within the watchdog.  (If the single wake-up is lost nobody ever moves again.)
+func twoWaitersOneReturn(round int) Case {
+	cfg := [3]int{1, 1, 1}
+	old := device.VerifPoolMax
+	device.VerifPoolMax = 6
+	defer func() { device.VerifPoolMax = old }()
+	max := device.VerifPoolMax
+	c := Case{Plan: []string{fmt.Sprintf("twowaitersone %d", round)}, Cfg: cfg, Gen: "stall:two-waiters-one-return", PoolMax: max}
+	r, err := newRunner(cfg)
+	if err != nil {
+		c.Stuck = err.Error()
+		return c
+	}
+	for _, a := range []string{"add 1 ep", "add 3", "up", "net h init 1", "net t 1 -1 ka", "net t 1 -1 ok", "tun r1", "tun r3", "tun r3", "tun r3"} {
+		if !r.do(a) {
+			c.Stuck = r.stuck
+			return c
+		}
+	}
+	ss := r.sessionOf(1, -1)
+	if ss == nil || r.w.Dev.VerifPoolCounts()[2] != 5 {
+		c.Skipped = 1
+		r.call("Close", func() { r.w.Dev.Close() })
+		return c
+	}
+	p := r.peers[1]
+	inner := ref.Pad(ref.IPv4([4]byte{10, 0, 1, 2}, [4]byte{10, 9, 9, 9}, 60, 3))
+	mk := func() sim.Dgram { return sim.Dgram{From: p.addr, Data: ss.s.Next(inner)} }
+	gate := make(chan struct{})
+	blocked := make(chan struct{})
+	var first atomic.Bool
+	r.w.Tun.TakeWritten()
+	r.w.Bind.TakeSent()
+	r.w.Tun.WriteGate = func(bufs [][]byte) {
+		if first.CompareAndSwap(false, true) {
+			close(blocked)
+			<-gate
+		}
+	}
+	waitUntil := func(d time.Duration, f func() bool) bool {
+		t0 := time.Now()
+		for time.Since(t0) < d {
+			if f() {
+				return true
+			}
+			time.Sleep(200 * time.Microsecond)
+		}
+		return false
+	}
+	abandon := func() Case {
+		select {
+		case <-gate:
+		default:
+			close(gate)
+		}
+		c.Skipped = 1
+		r.w.Settle()
+		r.call("Close", func() { r.w.Dev.Close() })
+		return c
+	}
+	r.w.Bind.Inject(mk())
+	select {
+	case <-blocked:
+	case <-time.After(3 * time.Second):
+		return abandon()
+	}
+	if !waitUntil(2*time.Second, func() bool { return r.w.Dev.VerifPoolCounts()[2] >= max }) {
+		return abandon()
+	}
+	r.w.Bind.Inject(mk())
+	r.w.Tun.Inject(ref.IPv4([4]byte{10, 9, 9, 9}, [4]byte{10, 0, 1, 77}, 90, 1))
+	if !waitUntil(2*time.Second, func() bool { return waitersInGet() >= 2 }) {
+		return abandon()
+	}
+	close(gate)
+	written, sent := 0, 0
+	ok := waitUntil(4*time.Second, func() bool {
+		written += len(r.w.Tun.TakeWritten())
+		for _, s := range r.w.Bind.TakeSent() {
+			if s.To == p.addr && len(s.Data) > 32 && s.Data[0] == ref.TypeTransport {
+				sent++
+			}
+		}
+		return written >= 2 && sent >= 1
+	})
+	c.Items = written*10 + sent
+	if !ok {
+		c.Stall = "two-waiters-one-return"
+		return c // the device is wedged: Close would hang on the TUN reader
+	}
+	r.w.Settle()
+	r.call("Close", func() { r.w.Dev.Close() })
+	c.Stuck = r.stuck
+	return c
+}
+
 // ---------------------------------------------------------------- plans
 
 var configs = [][3]int{{1, 1, 2}, {4, 2, 1}, {2, 8, 2}, {3, 3, 1}}
@@ -1356,6 +1457,13 @@ func writeShard(path string, cases []Case) error {
 }
 
 func runCase(c Case, gen string) Case {
+	if len(c.Plan) == 1 && strings.HasPrefix(c.Plan[0], "twowaitersone") {
+		rc := twoWaitersOneReturn(0)
+		if gen != "" {
+			rc.Gen = gen
+		}
+		return rc
+	}
 	if len(c.Plan) == 1 && strings.HasPrefix(c.Plan[0], "twowaiters") {
 		rc := twoWaiters(0)
 		if gen != "" {
@@ -1455,6 +1563,9 @@ func main() {
 		if *stall > 0 {
 			for i := 0; i < *waiters; i++ {
 				cases = append(cases, twoWaiters(i))
+			}
+			for i := 0; i < *waiters; i++ {
+				cases = append(cases, twoWaitersOneReturn(i))
 			}
 			for i, b := range stallBranches {
 				cases = append(cases, stallScenario(configs[(i+int(*seed))%2], b, *stall))
